@@ -31,7 +31,7 @@ func checkC16(c *an.Ctx) {
 	c.Rule("C16.1", "registry (E9): unmarshalData dispatches, case-insensitively, .yaml/.yml → yaml.v2, .json → encoding/json, .toml → go-toml; each case only decodes the whole input into the one map that is returned unmodified; any other extension is an error; readURL/readFile derive the extension from content type / path only; no document is read through a truncating reader whose cut goes undetected")
 	c.Rule("C16.2", "one decode path (E4): mapstructure.NewDecoder has one caller with one configuration; every configDefinition is produced by it; Load and LoadGlobalConfig both go load → decode → buildFromDefinition")
 	c.Rule("C16.4", "closed schema (E9 over types): no field reachable from configDefinition has an interface type — every leaf is a string, bool, duration or a list/map of those, so mapstructure's weak conversion erases the decoders' dynamic types (YAML int, TOML int64, JSON float64; yaml.v2's map[interface{}]interface{}) before the configuration is built")
-	c.Rule("C16.3", "format-blindness (E4): outside unmarshalData/readURL/readFile nothing in internal/config looks at a file extension, a content type, or at decoder-specific dynamic types; a decode hook of the module asks at most whether its source is a string (the numeric kinds differ between the decoders); nothing reached from the loader compares two dynamic reflect.Types for identity")
+	c.Rule("C16.3", "format-blindness (E4): outside unmarshalData/readURL/readFile nothing in internal/config looks at a file extension, a content type, or at decoder-specific dynamic types (including map[string]interface{} asserted on a value taken out of a raw document: nested sections are that from JSON and TOML, map[interface{}]interface{} from YAML); a decode hook of the module asks at most whether its source is a string (the numeric kinds differ between the decoders); nothing reached from the loader compares two dynamic reflect.Types for identity")
 	c.NotDecided = append(c.NotDecided, "that the three libraries produce maps mapstructure decodes identically (key types, numeric types, YAML 1.1 booleans, durations) — the property proper", "directory imports match *.yaml only (observation)")
 	p := c.P
 	um := p.Func("internal/config", "Loader", "unmarshalData")
@@ -552,7 +552,7 @@ func checkC16(c *an.Ctx) {
 				}
 			case *ssa.TypeAssert:
 				t := x.AssertedType.String()
-				if t == "map[interface{}]interface{}" || strings.HasPrefix(t, "encoding/json.") || strings.Contains(t, "go-toml") || strings.Contains(t, "yaml.v2") {
+				if t == "map[interface{}]interface{}" || (t == "map[string]interface{}" && rawDocValue(x.X)) || strings.HasPrefix(t, "encoding/json.") || strings.Contains(t, "go-toml") || strings.Contains(t, "yaml.v2") {
 					clean = false
 					c.Bad("C16.3", an.Short(fn)+":assert("+t+")", x.Pos(), "%s distinguishes the decoder-specific dynamic type %s: only one format produces it, so the formats are treated differently", an.Short(fn), t)
 				}
@@ -577,7 +577,7 @@ func checkC16(c *an.Ctx) {
 				return
 			}
 			t := x.AssertedType.String()
-			if t == "map[interface{}]interface{}" || strings.HasPrefix(t, "encoding/json.") || strings.Contains(t, "go-toml") || strings.Contains(t, "yaml.v2") {
+			if t == "map[interface{}]interface{}" || (t == "map[string]interface{}" && rawDocValue(x.X)) || strings.HasPrefix(t, "encoding/json.") || strings.Contains(t, "go-toml") || strings.Contains(t, "yaml.v2") {
 				clean = false
 				c.Bad("C16.3", an.Short(fn)+":assert("+t+")", x.Pos(), "%s (reached from the loader) distinguishes the decoder-specific dynamic type %s: only one format produces it, so the formats are treated differently", an.Short(fn), t)
 			}
@@ -887,4 +887,53 @@ func wholeInput(c *an.Ctx, rule string) {
 	if n == 0 {
 		c.OK(rule, "loader:whole-input", token.NoPos, "nothing the loader reaches reads a document through a truncating reader")
 	}
+}
+
+// rawDocValue reports whether v is a value taken out of a raw document: an element of a container of
+// interface values (a map lookup, a range over a map, an element of a list) or an interface parameter.
+// Only for such a value is map[string]interface{} a decoder-specific dynamic type (JSON and TOML build
+// nested sections as map[string]interface{}, yaml.v2 as map[interface{}]interface{}); the same assertion
+// on what a sync/atomic.Value holds, say, is about the module's own data.
+func rawDocValue(v ssa.Value) bool {
+	ifaceElem := func(t types.Type) bool {
+		switch u := t.Underlying().(type) {
+		case *types.Map:
+			return types.IsInterface(u.Elem())
+		case *types.Slice:
+			return types.IsInterface(u.Elem())
+		case *types.Pointer:
+			if a, ok := u.Elem().Underlying().(*types.Array); ok {
+				return types.IsInterface(a.Elem())
+			}
+		}
+		return false
+	}
+	for _, src := range an.Sources(v) {
+		switch x := src.(type) {
+		case *ssa.Parameter:
+			if types.IsInterface(x.Type()) {
+				return true
+			}
+		case *ssa.Lookup:
+			if ifaceElem(x.X.Type()) {
+				return true
+			}
+		case *ssa.Extract:
+			switch t := x.Tuple.(type) {
+			case *ssa.Lookup:
+				if ifaceElem(t.X.Type()) {
+					return true
+				}
+			case *ssa.Next:
+				if rg, ok := t.Iter.(*ssa.Range); ok && ifaceElem(rg.X.Type()) {
+					return true
+				}
+			}
+		case *ssa.UnOp:
+			if ia, ok := x.X.(*ssa.IndexAddr); ok && x.Op == token.MUL && ifaceElem(ia.X.Type()) {
+				return true
+			}
+		}
+	}
+	return false
 }
